@@ -345,7 +345,15 @@ func runC04(r *Run) error {
 					d.snapPreload = r.Rng.Intn(4) == 0
 				}
 				if route == "ancestor" {
-					c, err := h.colluder(0, pres)
+					// the writer's entry names the mutant as a parent (next) or only in its skip
+					// list (refs); in every third case the victim is restarted afterwards
+					mk := h.colluder
+					if r.Rng.Intn(2) == 0 {
+						mk = h.colluderRefs
+						r.Count("ancestor:via-refs")
+					}
+					d.reloadAfter = r.Rng.Intn(3) == 0
+					c, err := mk(0, pres)
 					if err != nil {
 						return err
 					}
@@ -375,6 +383,10 @@ func runC04(r *Run) error {
 					extra["sig"] = "snapshot/" + c04Sig(strings.TrimSuffix(name, "+resigned"))
 				}
 				ctor := "CMut"
+				if d.reloadAfter {
+					ctor = "CMutReloaded"
+					r.Count("ancestor:reloaded")
+				}
 				switch route {
 				case "cache":
 					ctor = "CMutCached"
